@@ -1481,8 +1481,8 @@ func (p *wat2X64Worker) buildFunc_ins(
 		fmt.Fprintf(w, "    # table.get\n")
 		fmt.Fprintf(w, "    mov rax, qword ptr [rip+%s]\n", kTableAddrName)
 		fmt.Fprintf(w, "    mov r10d, dword ptr [rbp%+d]\n", sp0)
-		fmt.Fprintf(w, "    mov rax, dword ptr [rax+r10*8]\n")
-		fmt.Fprintf(w, "    mov dword ptr [rbp%+d], rax\n", ret0)
+		fmt.Fprintf(w, "    mov rax, qword ptr [rax+r10*8]\n")
+		fmt.Fprintf(w, "    mov qword ptr [rbp%+d], rax\n", ret0)
 		fmt.Fprintln(w)
 
 	case token.INS_TABLE_SET:
@@ -1490,9 +1490,9 @@ func (p *wat2X64Worker) buildFunc_ins(
 		sp1 := p.fnWasmR0Base - 8*stk.Pop(token.I32) - 8
 		fmt.Fprintf(w, "    # table.set\n")
 		fmt.Fprintf(w, "    mov rax, qword ptr [rip+%s]\n", kTableAddrName)
-		fmt.Fprintf(w, "    mov r10d, dword ptr [rbp%+d]\n", sp0)
+		fmt.Fprintf(w, "    mov r10, qword ptr [rbp%+d]\n", sp0)
 		fmt.Fprintf(w, "    mov r11d, dword ptr [rbp%+d]\n", sp1)
-		fmt.Fprintf(w, "    mov dword ptr [rax+r11*8], r10\n")
+		fmt.Fprintf(w, "    mov qword ptr [rax+r11*8], r10\n")
 		fmt.Fprintln(w)
 
 	case token.INS_I32_LOAD:
